@@ -160,7 +160,7 @@ pub fn gen_sm(rng: &mut Rng, k: &Knobs) -> Value {
     let wint = |rng: &mut Rng| -> i128 { *rng.pick(&[0i128, 1, -1, 4294967295, 4294967296, i64::MAX as i128, i64::MIN as i128, 86400_000_000, -86400_000_000, 5]) };
     if rng.chance(1, 2) { put("last_update_time", if weird { if rng.chance(1,3) { json!({"str": hx("x")}) } else { json!({"int": wint(rng).to_string()}) } } else { json!({"int": ((base_w / 1000) - rng.below(10_000_000_000) as i128).to_string()}) }); }
     if rng.chance(1, 3) { put("server_dictated_poll_interval", if weird { json!({"int": wint(rng).to_string()}) }
-                               else { json!({"int": (match rng.below(6) { 0 => 0, 1 => 1, _ => rng.below(86400) as i128 * 1_000_000 }).to_string()}) }); }
+                               else { json!({"int": (match rng.below(7) { 0 => 0, 1 => 1, 2 => 86400 * 1_000_000, _ => rng.below(86400) as i128 * 1_000_000 }).to_string()}) }); }
     if rng.chance(1, 3) { put("consecutive_failed_update_checks", if weird { json!({"int": wint(rng).to_string()}) } else { json!({"int": rng.below(5).to_string()}) }); }
     if rng.chance(1, 4) { put("consecutive_failed_install_attempts", if weird { json!({"int": wint(rng).to_string()}) } else { json!({"int": rng.below(5).to_string()}) }); }
     if rng.chance(1, 3) { put("install_plan_id", json!({"str": hx(*rng.pick(&["plan-a", "plan-b"]))}));
